@@ -50,7 +50,7 @@ def ctuple(t):
     if t is None:
         return None
     nodes, p, l = t
-    return (canon.canon_node(nodes), p, l)
+    return (canon.canon_node(nodes, modes=True), p, l)
 
 
 # ---------------------------------------------------------------------------------------
@@ -185,7 +185,11 @@ def _variants():
     V.append(('get_token', dict(brackets_are_chars=False),
               lambda lw, pos: lw.get_token(pos, brackets_are_chars=False),
               lambda lw, pos: v3_get_token(lw, pos, [('[', ']')], True)))
-    stops = [dict(), dict(brace='}'), dict(brace=']'), dict(brace=('<', '>')), dict(brace=('[', ']')), dict(brace='{}'), dict(env='itemize'), dict(math='$'), dict(math='\\)')]
+    stops = [dict(), dict(brace='}'), dict(brace=']'), dict(brace=('<', '>')), dict(brace=('[', ']')), dict(brace='{}'), dict(env='itemize'), dict(math='$'), dict(math='\\)'),
+             # several stop conditions in one call: whichever comes first stops the parse
+             dict(brace='}', env='itemize'), dict(brace='}', math='$'), dict(env='itemize', math='$'), dict(brace=']', env='itemize', math='\\)'),
+             # a caller-supplied math-mode state must survive the added group delimiters
+             dict(brace=']', psmath='$'), dict(brace=('<', '>'), psmath='\\('), dict(brace='}', psmath='$')]
     for stp in stops:
         for maxn in (None, 1, 2):
             def leg(lw, pos, stp=stp, maxn=maxn):
@@ -193,6 +197,8 @@ def _variants():
                 ps = None
                 if 'math' in stp:
                     ps = lw.make_parsing_state(in_math_mode=True, math_mode_delimiter={'$': '$', '\\)': '\\('}[stp['math']])
+                if 'psmath' in stp:
+                    ps = lw.make_parsing_state(in_math_mode=True, math_mode_delimiter=stp['psmath'])
                 return lw.get_latex_nodes(pos, stop_upon_closing_brace=stp.get('brace'), stop_upon_end_environment=stp.get('env'),
                                           stop_upon_closing_mathmode=stp.get('math'), read_max_nodes=maxn, parsing_state=ps)
 
@@ -200,6 +206,8 @@ def _variants():
                 ps = None
                 if 'math' in stp:
                     ps = lw.make_parsing_state(in_math_mode=True, math_mode_delimiter={'$': '$', '\\)': '\\('}[stp['math']])
+                if 'psmath' in stp:
+                    ps = lw.make_parsing_state(in_math_mode=True, math_mode_delimiter=stp['psmath'])
                 return v3_get_latex_nodes(lw, pos, brace=stp.get('brace'), env=stp.get('env'), math=stp.get('math'), maxn=maxn, parsing_state=ps)
             V.append(('get_latex_nodes', dict(stop=repr(stp), read_max_nodes=maxn), leg, new))
     for sb in (None, False, True):
@@ -439,7 +447,7 @@ def _modes_only(c):
     return sorted(out)
 
 
-def parse_with_spec(spec, s, env=False, pick=0):
+def parse_with_spec(spec, s, env=False, pick=0, extra=False):
     from pylatexenc import macrospec as ms
     from pylatexenc.latexwalker import LatexWalker
     from pylatexenc.latexnodes.parsers import LatexGeneralNodesParser
@@ -447,7 +455,7 @@ def parse_with_spec(spec, s, env=False, pick=0):
     if env:
         db.add_context_category('c', environments=[spec])
     else:
-        db.add_context_category('c', macros=[spec])
+        db.add_context_category('c', macros=[spec] + ([ms.MacroSpec('w', '[{')] if extra else []))
     lw = LatexWalker(s, latex_context=db, tolerant_parsing=False)
     nodes, _ = lw.parse_content(LatexGeneralNodesParser())
     if pick is None:
@@ -484,19 +492,42 @@ def check_spellings(a, inputs, acc, env=False, math=False):
                     acc.violation(ID, 'spellings', case, dict(kind='spelling-differs-from-v3-declaration', spelling=label),
                                   observed=repr(o)[:600], expected=repr(ref)[:600])
             # when the v3 declaration fails, legacy spellings may raise or return their documented empty result
+        if env or len(w) > 2 * 1 + 1:
+            continue
+        # the same call inside the optional and the mandatory argument of a pylatexenc-3 macro, and after it: what the
+        # legacy spelling leaves behind (parsing state, position) must not differ either
+        s2 = '\\w[\\n' + w + ']{\\n' + w + '}x\\n' + w
+        ref = None
+        for (label, fac) in sp:
+            acc.count('evaluations')
+            o = outcome(lambda: parse_with_spec(fac(), s2, env, pick=None, extra=True))
+            case = dict(argspec=a, s=s2, spelling=label, env=env, wrapped=True)
+            if o[0] in ('exception', 'timeout'):
+                acc.violation(ID, 'spellings', case, dict(kind='spelling-crashes', spelling=label, exc=o[1], wrapped=True))
+                continue
+            if ref is None:
+                ref = o
+                continue
+            if o != ref:
+                acc.violation(ID, 'spellings', case, dict(kind='spelling-differs-from-v3-declaration', spelling=label, wrapped=True),
+                              observed=repr(o)[:600], expected=repr(ref)[:600])
+
+
+WS_KINDS = ['', ' ', '\t', '\n', '\r', '\r\n', '\x0c', '\x0b', '\xa0', ' \n ', '\n\n', '%c\n', ' %c\n ']
+WS_TAILS = ['[b]{c}', '[b]', '{c}', 'a', '*[b]', '[b', ']', '\\item[b]']
 
 
 def plan(tier):
     b = BOUNDS[tier]
     shards = [('L', sh) for sh in words.prefix_shards(LEX, b['N'], 1)] + [('R', sh) for sh in words.prefix_shards(words.SIGMA_R, b['M'], 1)]
     argstrings = [''.join(w) for k in range(0, 5) for w in itertools.product('*[{', repeat=k)]
-    shards += [('S', a) for a in argstrings]
+    shards += [('S', a) for a in argstrings] + [('W', i) for i in range(len(WS_KINDS))]
     return dict(
         shards=shards, bounds=dict(b, lexemes=LEX, variants=len(_variants()), argstrings=len(argstrings)),
         rule=('every word of length <= N over 14 lexemes at every lexeme boundary and every word of length <= M over the 13 raw characters at '
               'every position x %d legacy call variants x {strict, tolerant}; structural comparison at every "{", "$", \\begin{itemize}; spec '
               'spellings: all %d argument strings over {*,[,{} of length <= 4 x 7-9 macro spellings and 4 environment spellings x every input '
-              '\\n.w with w of length <= W over {* [ ] { } a space}.  non-trivial = comparisons in which the v3 formulation returned a result.'
+              '\\n.w with w of length <= W over {* [ ] { } a space}, and (w of length <= 2... 3 symbols) the same call wrapped in the optional and mandatory argument of a v3 macro; 13 kinds of white space (CR, CRLF, FF, VT, NBSP, comments, ...) x 8 argument tails x 6 heads through every legacy variant.  non-trivial = comparisons in which the v3 formulation returned a result.'
               % (len(_variants()), len(argstrings))),
         assumptions=['the literal v3 formulations in mc/checks/c16.py restate the documented meaning of each legacy call',
                      'when the v3 declaration fails on an input the legacy spelling may raise or return its documented empty result (only crashes are reported)'],
@@ -517,6 +548,15 @@ def run_shard(shard, tier, acc):
         for w in words.iter_shard(words.SIGMA_R, b['M'], shard[1]):
             s = words.render(words.SIGMA_R, w)
             check_word(s, list(range(len(s) + 1)), acc)
+    elif shard[0] == 'W':
+        # every kind of white space (also carriage return, form feed, no-break space, comments) in front of an argument
+        for ws in [WS_KINDS[shard[1]]]:
+            for tail in WS_TAILS:
+                for head in ('', 'x', '\\textbf', '\\sqrt', '\\item', '\\\\'):
+                    s = head + ws + tail
+                    check_word(s, sorted(set([0, len(head), len(head) + len(ws)])), acc)
+        for a in ('[', '[{', '{[', '*[', '[['):
+            check_spellings(a, [ws + t for ws in [WS_KINDS[shard[1]]] for t in ('[a]{a}', '[a]', '{a}[a]', '*[a]', '[a][a]')], acc, env=False)
     else:
         a = shard[1]
         inputs = [''.join(w) for k in range(0, b['W'] + 1) for w in itertools.product(SPEC_ALPHA, repeat=k)]
@@ -545,8 +585,11 @@ def replay(sub, case):
     else:
         s = case['s']
         w = s[len('\\begin{n}'):-len('\\end{n}')] if case['env'] else s[2:]
+        if case.get('wrapped'):
+            w = s.rsplit('x\\n', 1)[1]
         check_spellings(case['argspec'], [w], acc, env=case['env'], math='is_math_mode' in case['spelling'])
-        acc.violations = [v for v in acc.violations if v['case'].get('spelling') == case['spelling']]
+        acc.violations = [v for v in acc.violations if v['case'].get('spelling') == case['spelling'] and
+                          bool(v['case'].get('wrapped')) == bool(case.get('wrapped'))]
     return acc.violations
 
 
